@@ -200,5 +200,8 @@ P["C20"] = {
     "assumptions": A_CORE,
 }
 
+for pid in ("C07", "C08", "C09", "C10", "C16", "C17", "C18", "C19", "C12", "C13", "C14", "C20"):
+    P[pid].setdefault("thorough", {})["cross_solver"] = "z3-new"
+
 json.dump(P, open(os.path.join(V, "props.json"), "w"), indent=1)
 print("properties configured:", sorted(P))
